@@ -500,7 +500,8 @@ def rule_t2(ctx):
         raise Unrecognised("C16.T2", c, "statement block of the emission not found")
     after = block[block.index(ap_stmt) + 1:]
     reset = any(isinstance(x, ast.Assign) and src(x.targets[0]) == "offset" and src(x.value) == "0" for x in after)
-    incs = [x for x in ast.walk(lp) if isinstance(x, ast.AugAssign) and src(x.target) == "offset"]
+    incs = [x for x in ast.walk(lp) if (isinstance(x, ast.AugAssign) and src(x.target) == "offset")
+            or (isinstance(x, ast.Assign) and src(x.targets[0]) == "offset" and isinstance(x.value, ast.BinOp) and isinstance(x.value.op, ast.Add) and "offset" in (src(x.value.left), src(x.value.right)))]
     if not incs:
         raise Unrecognised("C16.T2", c, "offset accumulation not found")
     ctx.check(reset, "T2-decoder-offset-reset", c, "offset reset after each emitted component", site(appends[0]),
